@@ -1,6 +1,7 @@
 import SlipVerif.Model.Num
 import SlipVerif.Lemmas.Num
 import SlipVerif.Lemmas.NumFix
+import SlipVerif.Theorems.C05
 import Mathlib.Tactic.Linarith
 import Mathlib.Tactic.Ring
 import Mathlib.Data.Nat.Log
@@ -234,6 +235,76 @@ theorem numerator_denominator_spec (r : Rat) :
     simpa [Int.gcd, Nat.Coprime] using this
   · simp
 
+/-! ## logeqv, lognand, lognor, logandc1/2, logorc1/2, logtest: bit i of the result is the Boolean
+     function of bit i of the operands (infinite two's complement, negative operands included) -/
+
+theorem logeqv_testBit (a b : Int) (i : Nat) : testBit (leqv a b) i = (testBit a i == testBit b i) := by
+  unfold leqv; rw [lognot_testBit, logxor_testBit]; cases testBit a i <;> cases testBit b i <;> rfl
+theorem lognand_testBit (a b : Int) (i : Nat) : testBit (lognand a b) i = !(testBit a i && testBit b i) := by
+  unfold lognand; rw [lognot_testBit, logand_testBit]
+theorem lognor_testBit (a b : Int) (i : Nat) : testBit (lognor a b) i = !(testBit a i || testBit b i) := by
+  unfold lognor; rw [lognot_testBit, logior_testBit]
+theorem logandc1_testBit (a b : Int) (i : Nat) : testBit (logandc1 a b) i = (!(testBit a i) && testBit b i) := by
+  unfold logandc1; rw [logand_testBit, lognot_testBit]
+theorem logandc2_testBit (a b : Int) (i : Nat) : testBit (logandc2 a b) i = (testBit a i && !(testBit b i)) := by
+  unfold logandc2; rw [logand_testBit, lognot_testBit]
+theorem logorc1_testBit (a b : Int) (i : Nat) : testBit (logorc1 a b) i = (!(testBit a i) || testBit b i) := by
+  unfold logorc1; rw [logior_testBit, lognot_testBit]
+theorem logorc2_testBit (a b : Int) (i : Nat) : testBit (logorc2 a b) i = (testBit a i || !(testBit b i)) := by
+  unfold logorc2; rw [logior_testBit, lognot_testBit]
+
+/-- an integer is non-zero iff some bit of its two's complement expansion is 1 -/
+theorem ne_zero_iff_testBit (n : Int) : n ≠ 0 ↔ ∃ i, testBit n i = true := by
+  cases n with
+  | ofNat m =>
+    constructor
+    · intro h
+      have hm : m ≠ 0 := by intro h0; apply h; simp [h0]
+      obtain ⟨i, hi⟩ := Nat.exists_testBit_of_ne_zero hm
+      exact ⟨i, by simpa [testBit] using hi⟩
+    · rintro ⟨i, hi⟩ h0
+      have hm : m = 0 := by simpa using h0
+      subst hm
+      simp [testBit] at hi
+  | negSucc m =>
+    constructor
+    · intro _
+      refine ⟨m, ?_⟩
+      have : m.testBit m = false := Nat.testBit_lt_two_pow Nat.lt_two_pow_self
+      simp [testBit, this]
+    · intro _ h0; cases h0
+
+/-- `(logtest a b)`: the two integers have a 1 bit in common -/
+theorem logtest_iff (a b : Int) : logtest a b = true ↔ ∃ i, testBit a i = true ∧ testBit b i = true := by
+  unfold logtest
+  rw [bne_iff_ne, ne_zero_iff_testBit]
+  constructor
+  · rintro ⟨i, hi⟩; rw [logand_testBit] at hi; exact ⟨i, by simpa using hi⟩
+  · rintro ⟨i, ha, hb⟩; exact ⟨i, by rw [logand_testBit, ha, hb]; rfl⟩
+
+/-- n-ary logeqv: bit i of the result is 1 iff an even number of the operands have bit i clear -/
+theorem leqvAll_testBit (xs : List Int) (i : Nat) :
+    testBit (leqvAll xs) i = (xs.countP (fun x => !(testBit x i)) % 2 == 0) := by
+  have key : ∀ (l : List Int) (acc : Int),
+      testBit (l.foldl leqv acc) i = (testBit acc i == (l.countP (fun x => !(testBit x i)) % 2 == 0)) := by
+    intro l
+    induction l with
+    | nil => intro acc; simp
+    | cons x l ih =>
+      intro acc
+      rw [List.foldl_cons, ih, logeqv_testBit, List.countP_cons]
+      rcases Nat.mod_two_eq_zero_or_one (l.countP (fun x => !(testBit x i))) with hc | hc
+      · have h1 : (l.countP (fun x => !(testBit x i)) + 1) % 2 = 1 := by omega
+        cases h : testBit x i <;> cases testBit acc i <;> simp [hc, h1]
+      · have h1 : (l.countP (fun x => !(testBit x i)) + 1) % 2 = 0 := by omega
+        cases h : testBit x i <;> cases testBit acc i <;> simp [hc, h1]
+  unfold leqvAll
+  rw [key]
+  have : testBit (-1) i = true := by
+    show testBit (Int.negSucc 0) i = true
+    simp [testBit]
+  rw [this]; simp
+
 /-! ## non-vacuity -/
 
 example : integerLength 0 = 0 ∧ integerLength (-1) = 0 ∧ integerLength 255 = 8 ∧ integerLength 256 = 9 ∧
@@ -241,6 +312,7 @@ example : integerLength 0 = 0 ∧ integerLength (-1) = 0 ∧ integerLength 255 =
 example : logcount 13 = 3 ∧ logcount (-13) = 2 ∧ logcount (-1) = 0 := by
   refine ⟨?_, ?_, ?_⟩ <;> simp [logcount, popCount]
 example : logbitp 0 (-18446744073709551616) = .ok false ∧ logbitp 70 (-1) = .ok true ∧ logbitp (-1) 5 = .error .typeErr := by decide
+example : leqvAll [7, 3, 1] = 5 ∧ leqv 7 3 = -5 ∧ lognand 0 9223372036854775808 = -1 ∧ lognor 1 18446744073709551616 = -18446744073709551618 := by decide
 example : evenp (-4) = true ∧ oddp (-3) = true ∧ oddp 4 = false := by decide
 
 end SlipVerif.Num
